@@ -102,7 +102,7 @@ type Axiom struct {
 var clauseKeywords = map[string]bool{
 	"func": true, "ext": true, "spec": true, "abstract": true, "axiom": true, "prop": true,
 	"requires": true, "ensures": true, "assigns": true, "loop": true, "call": true, "pure": true,
-	"may_panic": true, "nosafety": true, "trusted": true, "bounded": true, "fresh": true, "emits": true, "note": true, "sets": true, "ghost": true, "readonly": true, "trusted_frame": true, "dyncalls_frame": true,
+	"may_panic": true, "nosafety": true, "trusted": true, "bounded": true, "fresh": true, "emits": true, "note": true, "sets": true, "ghost": true, "readonly": true, "trusted_frame": true, "guarded": true, "dyncalls_frame": true,
 }
 
 var labelRe = regexp.MustCompile(`^@([A-Za-z0-9_\-./]+)\s+`)
@@ -237,6 +237,17 @@ func (e *Engine) readContractFile(path, pkgKey string) error {
 				return fmt.Errorf("%s: spec function %s redefined (first at %s)", where, sf.Name, old.Where)
 			}
 			e.specs[sf.Name] = sf
+			cur = nil
+		case "guarded":
+			// guarded <global> by <mutex global>: every read or write of the variable happens while the mutex is held
+			fs := strings.Fields(rest)
+			if len(fs) != 3 || fs[1] != "by" {
+				return fmt.Errorf("%s: guarded wants `<var> by <mutex>`", where)
+			}
+			if e.guarded == nil {
+				e.guarded = map[string]string{}
+			}
+			e.guarded[pkgKey+"."+fs[0]] = pkgKey + "." + fs[2]
 			cur = nil
 		case "readonly":
 			// readonly <global> [@label expr over `value`]: a package-level variable written only by its initializer
